@@ -26,11 +26,21 @@ def frac(x):
     raise MachineryError(f"cannot encode weight {x!r} ({type(x).__name__})")
 
 
+FX = 2**20
+
+
 def enc_rat(x):
+    """Exact <<n, d>> when it fits the model's 32-bit rationals.  A float that is not such a rational (the
+    code path forced floating point: division, numpy) is recorded in fixed point [m, 2^20, 0]; the
+    specification compares it with the exact oracle value within 2 units (Semirings.tla REq)."""
     q = frac(x)
-    if abs(q.numerator) >= LIM or q.denominator >= LIM:
-        raise MachineryError(f"weight {q} does not fit the model's 32-bit rationals")
-    return [q.numerator, q.denominator]
+    if abs(q.numerator) < LIM and q.denominator < LIM // 8:
+        return [q.numerator, q.denominator]
+    if isinstance(x, (int, Fraction)) and not isinstance(x, bool):
+        pass
+    if abs(q) < 2**9:
+        return [int(round(q * FX)), FX, 0]
+    raise MachineryError(f"weight {q} does not fit the model's rationals or fixed-point range")
 
 
 def enc_w(R, w):
